@@ -406,6 +406,96 @@ func runC43(p *core.Prog, r *core.Report) {
 	// ---------------- R6 a component records a mode that needs its store only after the store was opened
 	r6 := r.Rule("C43.R6", "metabase and write-cache record a mode that needs an open store only after every open step of that function returned nil (a failed switch must leave the recorded mode unchanged, else the retry is skipped as 'already in that mode')", 6)
 	componentModeAfterOpen(p, r, r6)
+	// ---------------- R7 the write-cache changes its recorded mode only after the flush that the switch requires
+	r7 := r.Rule("C43.R7", "write-cache SetMode: the flush required for entering a no-metabase mode comes before any write of the recorded mode and a failed flush ends the call without one (the shard aborts its switch on that error and keeps reporting the old mode; a cache that already records the new mode silently refuses deletes and never flushes behind a READ_WRITE shard)", 2)
+	if sm := p.Func("(*pkg/local_object_storage/writecache.cache).SetMode"); sm == nil {
+		r.Fatalf("C43.R7: write-cache SetMode not found")
+	} else {
+		var stores []*ssa.Store
+		for _, b := range sm.Blocks {
+			for _, in := range b.Instrs {
+				if st, ok := in.(*ssa.Store); ok {
+					if fa, isFA := st.Addr.(*ssa.FieldAddr); isFA && core.FieldAddrName(fa) == "(pkg/local_object_storage/writecache.cache).mode" {
+						stores = append(stores, st)
+					}
+				}
+			}
+		}
+		flushes := core.CallSites([]*ssa.Function{sm}, func(s core.Site) bool { return s.Name == "(*pkg/local_object_storage/writecache.cache).flush" })
+		name := core.FuncName(sm)
+		if len(stores) == 0 {
+			r7.Bad(name+"#mode-store", p.Pos(sm.Pos()), "SetMode never records the mode")
+		}
+		if len(flushes) == 0 {
+			r7.Check(true, name+"#flush", p.Pos(sm.Pos()), "no flush step in the switch", "")
+		}
+		for i, f := range flushes {
+			fi := f.Call.(ssa.Instruction)
+			fb := fi.Block()
+			early := ""
+			for _, st := range stores {
+				before := st.Block() == fb && indexIn(fb, st) < indexIn(fb, fi)
+				if before || st.Block() != fb && reaches(st.Block(), fb) {
+					early = p.InstrPos(st)
+				}
+			}
+			r7.Check(early == "", fmt.Sprintf("%s#flush@%d!before-recording", name, i+1), p.InstrPos(fi), "no write of the recorded mode can precede the flush",
+				"the recorded mode is written ("+early+") before the flush the switch requires: when the flush fails the call returns its error with the new mode already recorded")
+			// failed flush: no store reachable from the error edge
+			late := ""
+			if c, ok := f.Call.(*ssa.Call); ok && c.Referrers() != nil {
+				tested := false
+				for _, ref := range *c.Referrers() {
+					bo, isB := ref.(*ssa.BinOp)
+					if !isB || bo.Referrers() == nil {
+						continue
+					}
+					if k, isK := bo.Y.(*ssa.Const); !isK || !k.IsNil() {
+						continue
+					}
+					for _, u := range *bo.Referrers() {
+						iff, isIf := u.(*ssa.If)
+						if !isIf {
+							continue
+						}
+						tested = true
+						errSucc := iff.Block().Succs[0]
+						if bo.Op == token.EQL {
+							errSucc = iff.Block().Succs[1]
+						}
+						for _, st := range stores {
+							if st.Block() == errSucc || reaches(errSucc, st.Block()) {
+								late = p.InstrPos(st)
+							}
+						}
+					}
+				}
+				if !tested {
+					// `return c.flush(...)`: fine only if nothing was recorded before (checked above) and nothing follows
+					for _, ref := range *c.Referrers() {
+						if _, isRet := ref.(*ssa.Return); isRet {
+							tested = true
+						}
+					}
+				}
+				if !tested {
+					late = "the flush result is not examined"
+				}
+			}
+			r7.Check(late == "", fmt.Sprintf("%s#flush@%d!failure-records-nothing", name, i+1), p.InstrPos(fi), "a failed flush ends the switch with the recorded mode untouched",
+				"after a failed flush the recorded mode can still be written ("+late+")")
+		}
+	}
+	r.Explain += " (R7) in the write-cache's SetMode the flush that entering a no-metabase mode requires precedes every write of the recorded mode, and its failure edge reaches none: Shard.setMode aborts on the cache's error (C14.R4) and keeps the old mode, so the cache must keep it too."
+}
+
+func indexIn(b *ssa.BasicBlock, in ssa.Instruction) int {
+	for i, x := range b.Instrs {
+		if x == in {
+			return i
+		}
+	}
+	return -1
 }
 
 // firstUse returns the first referrer of v (used to see whether a closure is started as a goroutine).
